@@ -217,6 +217,31 @@ func Generate(rng *rand.Rand, i int, thorough bool) *p2prig.Scenario {
 			s.Announce[k].Nodes = nil
 		}
 	}
+	// a webhook is registered whose endpoint accepts every delivery and answers none: headers are stored and the sync
+	// comes to rest without waiting for it
+	if i%32 == 29 {
+		s.HonestLen = 40 + rng.Intn(120)
+		if s.Engine == "legacy" {
+			s.CheckpointHeights = []int32{int32(1 + rng.Intn(s.HonestLen-20))}
+			s.DisableCheckpoints = rng.Intn(4) == 0
+		} else {
+			s.CheckpointHeights = nil
+		}
+		s.InitialStore, s.PrefixLen = "genesis", 0
+		if rng.Intn(3) == 0 {
+			s.InitialStore, s.PrefixLen = "prefix", 1+rng.Intn(s.HonestLen/3)
+		}
+		s.Nodes = []p2prig.NodeSpec{{Kind: "honest"}}
+		s.DropNode0AfterSync, s.WaitReconnect, s.SlowConvergeWaitSec = false, false, 0
+		s.HeldWebhook = true
+		for k := range s.Announce {
+			s.Announce[k].Nodes = nil
+			if s.Engine == "exp" && s.Announce[k].Mode == "inv" {
+				s.Announce[k].Mode = "conformant"
+			}
+		}
+		return s
+	}
 	// experimental engine, three or four checkpoints, started on a store that is already past the first of them
 	if s.Engine == "exp" && i%4 == 1 {
 		s.HonestLen = 60 + rng.Intn(300)
@@ -239,6 +264,34 @@ func Generate(rng *rand.Rand, i int, thorough bool) *p2prig.Scenario {
 			if s.Announce[k].Mode == "inv" {
 				s.Announce[k].Mode = "conformant"
 			}
+		}
+		return s
+	}
+	// the only peer is lost during or right after the handshake - before it has sent its version message, after its
+	// version and before its verack, or as soon as the handshake is complete; the service dials it again, and what the
+	// peer offers has to be fetched over the second connection before anything is announced
+	if s.Engine == "legacy" && i%32 == 13 {
+		s.HonestLen = 40 + rng.Intn(200)
+		s.CheckpointHeights = []int32{int32(1 + rng.Intn(s.HonestLen-20))}
+		s.DisableCheckpoints = rng.Intn(4) == 0
+		s.InitialStore, s.PrefixLen = "genesis", 0
+		if rng.Intn(3) == 0 {
+			s.InitialStore, s.PrefixLen = "prefix", 1+rng.Intn(s.HonestLen/3)
+		}
+		n0 := p2prig.NodeSpec{Kind: "honest"}
+		switch (i / 32) % 3 {
+		case 0:
+			n0.CloseAfterVersion = true
+		case 1:
+			n0.DisconnectAtMsg = 1
+		default:
+			n0.DisconnectAtMsg = 2
+		}
+		s.Nodes = []p2prig.NodeSpec{n0}
+		s.DropNode0AfterSync, s.SlowConvergeWaitSec = false, 0
+		s.WaitReconnect = true
+		for k := range s.Announce {
+			s.Announce[k].Nodes = nil
 		}
 		return s
 	}
@@ -371,8 +424,19 @@ func Classify(s *p2prig.Scenario) string {
 		if n.Cap > 0 {
 			k += fmt.Sprintf("(cap%d)", n.Cap)
 		}
-		if n.DisconnectAtMsg > 0 {
+		if n.DisconnectAtMsg > 2 {
 			k += "(drop)"
+		} else if n.DisconnectAtMsg > 0 {
+			k += fmt.Sprintf("(drop-at-handshake-message-%d)", n.DisconnectAtMsg)
+		}
+		if n.CloseAfterVersion {
+			k += "(lost-between-version-and-verack)"
+		}
+		if n.SilentFirst {
+			k += "(first-connection-stalls)"
+		}
+		if n.IgnoreStop {
+			k += "(ignores-stop)"
 		}
 		if n.DropAfterHeight > 0 {
 			k += "(drop-after-checkpoint-reply)"
@@ -412,6 +476,9 @@ func Classify(s *p2prig.Scenario) string {
 	}
 	if s.DropNode0AfterSync {
 		kinds = append(kinds, "node0-goes-away")
+	}
+	if s.HeldWebhook {
+		cp += ",webhook-unanswered"
 	}
 	return strings.Join([]string{s.Engine, cp, s.InitialStore, lenClass, strings.Join(kinds, "+"), strings.Join(ann, ",")}, "|")
 }
@@ -472,7 +539,7 @@ func body(r *ev.Run) {
 			res, crash := p2prig.RunScenarioChild(r.Scratch, s, wd)
 			Record(r, s, res, crash, func(sig string) bool {
 				// containment oracles (forbidden header, checkpoint mismatch/advance) are C07's; C06 decides convergence
-				for _, p := range []string{"not-converged|", "not-converged-before-any-announcement|", "ichain|", "panic", "reader-5xx|"} {
+				for _, p := range []string{"not-converged|", "not-converged-before-any-announcement|", "sync-waits-for-webhook-answers|", "closed-outbound-connection-not-replaced|", "ichain|", "panic", "reader-5xx|"} {
 					if strings.HasPrefix(sig, p) {
 						return true
 					}
